@@ -97,7 +97,7 @@ Aesmode **runcrypt::prepare_AES(u8_t ctype, u8_t *iv, bool cmode)
             (WV_STREAM_IV_IS(mode, WV_S1, iv + 20 * WV_S1) || WV_STREAM_IV_IS(mode, WV_S1, iv)) &&
             (WV_STREAM_IV_IS(mode, WV_SLAST, iv + 20 * WV_SLAST) || WV_STREAM_IV_IS(mode, WV_SLAST, iv)));
   WV_ASSERT("[C02,C01] every stream is an object of the class for (direction, mode) built from the user's key",
-            mode[WV_SLAST] != NULL && mode[WV_SLAST]->_wv_tag == WV_TAG_FOR(cmode, ctype) && WV_KEY16_EQ(WV_STREAM(mode, WV_SLAST)->crypt._base.key.init_key, this->key));
+            mode[WV_SLAST] != NULL && mode[WV_SLAST]->_wv_tag == WV_TAG_FOR(cmode, ctype) && WV_STREAM_KEY_IS(mode, WV_SLAST, this->key));
   return mode;
 }
 /*
